@@ -182,33 +182,24 @@ Proof.
 Qed.
 
 (* every other operation leaves the AVS store alone *)
-Lemma stat_group_avs' st au ou ms :
-  match stat_group st au ou ms with Some st' => s_avs st' = s_avs st | None => True end.
+Lemma stat_group_avs st au ou ms : s_avs (stat_group st au ou ms) = s_avs st.
 Proof.
   unfold stat_group.
-  destruct (filter has_sig (sort_by r_op ms)) as [|r0 rest]; [exact I|].
-  destruct (powers_of _ _ _ _); [|exact I].
-  destruct (sget (s_tasks st) _); [|exact I].
-  destruct (assoc au _); [|exact I].
-  reflexivity.
+  destruct (filter has_sig (sort_by r_op ms)) as [|r0 rest]; [reflexivity|].
+  destruct (sget (s_tasks st) _); [|reflexivity].
+  destruct (assoc au _); reflexivity.
 Qed.
 
-Lemma stat_group_avs st au ou ms st' : stat_group st au ou ms = Some st' -> s_avs st' = s_avs st.
-Proof. intro H. pose proof (stat_group_avs' st au ou ms) as G. rewrite H in G. exact G. Qed.
-
-Lemma stat_groups_avs st0 au ou duel heads : forall st st',
-  stat_groups st0 st au ou duel heads = Some st' -> s_avs st' = s_avs st.
+Lemma stat_groups_avs au ou duel heads : forall st, s_avs (stat_groups st au ou duel heads) = s_avs st.
 Proof.
-  induction heads as [|h rest IH]; simpl; intros st st' H; [inversion H; auto|].
-  destruct (stat_group st au ou _) as [st1|] eqn:E; [|discriminate].
-  apply IH in H. apply stat_group_avs in E. congruence.
+  induction heads as [|h rest IH]; simpl; intro st; [reflexivity|].
+  rewrite IH. apply stat_group_avs.
 Qed.
 
-Lemma epoch_ends_avs au ou ended : forall st st', epoch_ends st au ou ended = Some st' -> s_avs st' = s_avs st.
+Lemma epoch_ends_avs au ou ended : forall st, s_avs (epoch_ends st au ou ended) = s_avs st.
 Proof.
-  induction ended as [|[id num] rest IH]; simpl; intros st st' H; [inversion H; auto|].
-  destruct (epoch_hook st au ou id num) as [st1|] eqn:E; [|discriminate].
-  apply IH in H. unfold epoch_hook in E. apply stat_groups_avs in E. simpl in H. congruence.
+  induction ended as [|[id num] rest IH]; simpl; intro st; [reflexivity|].
+  rewrite IH. cbn [s_avs with_epochs]. unfold epoch_hook. apply stat_groups_avs.
 Qed.
 
 Ltac same_avs Hinv := repeat match goal with
@@ -235,8 +226,7 @@ Proof.
   - unfold reg_bls. same_avs Hinv.
   - unfold submit. same_avs Hinv.
   - unfold challenge. same_avs Hinv.
-  - destruct (epoch_ends st avs_usd op_usd ended) eqn:E; [|exact Hinv].
-    apply epoch_ends_avs in E. cbn [fst]. rewrite E. exact Hinv.
+  - cbn [fst]. rewrite epoch_ends_avs. exact Hinv.
 Qed.
 
 Lemma run_reg_inv e ops : forall st, reg_inv (s_avs st) -> forallb op_wf ops = true -> reg_inv (s_avs (run e st ops)).
@@ -267,38 +257,28 @@ Proof.
   intros (A1&A2&A3&A4&A5&A6&A7) (B1&B2&B3&B4&B5&B6&B7). repeat split; try congruence. auto.
 Qed.
 
-Lemma stat_group_frame st au ou ms :
-  match stat_group st au ou ms with Some st' => frame st st' | None => True end.
+Lemma stat_group_frame st au ou ms : frame st (stat_group st au ou ms).
 Proof.
   unfold stat_group.
-  destruct (filter has_sig (sort_by r_op ms)) as [|r0 rest]; [exact I|].
-  destruct (powers_of _ _ _ _); [|exact I].
-  destruct (sget (s_tasks st) _); [|exact I].
-  destruct (assoc au _); [|exact I].
+  destruct (filter has_sig (sort_by r_op ms)) as [|r0 rest]; [apply frame_refl|].
+  destruct (sget (s_tasks st) _); [|apply frame_refl].
+  destruct (assoc au _); [|apply frame_refl].
   repeat split. intro Hs. apply sset_sorted. exact Hs.
 Qed.
 
-Lemma stat_groups_frame st0 au ou duel heads : forall st,
-  match stat_groups st0 st au ou duel heads with Some st' => frame st st' | None => True end.
+Lemma stat_groups_frame au ou duel heads : forall st, frame st (stat_groups st au ou duel heads).
 Proof.
   induction heads as [|h rest IH]; simpl; intro st; [apply frame_refl|].
-  pose proof (stat_group_frame st au ou (filter (same_group h) duel)) as G.
-  destruct (stat_group st au ou _) as [st1|]; [|exact I].
-  specialize (IH st1). destruct (stat_groups st0 st1 au ou duel rest); [|exact I].
-  eapply frame_trans; eauto.
+  eapply frame_trans; [apply stat_group_frame | apply IH].
 Qed.
 
-Lemma epoch_ends_frame au ou ended : forall st,
-  match epoch_ends st au ou ended with Some st' => frame st st' | None => True end.
+Lemma epoch_ends_frame au ou ended : forall st, frame st (epoch_ends st au ou ended).
 Proof.
   induction ended as [|[id num] rest IH]; simpl; intro st; [apply frame_refl|].
-  unfold epoch_hook.
-  pose proof (stat_groups_frame st au ou (filter (due st id num) (map snd (s_res st)))
+  eapply frame_trans; [|apply IH].
+  pose proof (stat_groups_frame au ou (filter (due st id num) (map snd (s_res st)))
                 (group_heads (filter (due st id num) (map snd (s_res st))) []) st) as G.
-  destruct (stat_groups st st au ou _ _) as [st1|]; [|exact I].
-  specialize (IH (with_epochs st1 (assoc_set (s_epochs st1) id (num + 1)))).
-  destruct (epoch_ends _ au ou rest) as [st2|]; [|exact I].
-  eapply frame_trans; [exact G|]. destruct IH as (B1&B2&B3&B4&B5&B6&B7). repeat split; auto.
+  unfold epoch_hook. destruct G as (B1&B2&B3&B4&B5&B6&B7). repeat split; auto.
 Qed.
 
 Ltac head_sorted H := repeat match goal with
@@ -321,7 +301,6 @@ Proof.
   - unfold submit. head_sorted H; repeat split; auto; apply sset_sorted; auto.
   - unfold challenge. head_sorted H; repeat split; auto; apply sset_sorted; auto.
   - pose proof (epoch_ends_frame avs_usd op_usd ended st) as G.
-    destruct (epoch_ends st avs_usd op_usd ended) as [st'|]; [|exact H].
     destruct G as (B1&B2&B3&B4&B5&B6&B7). cbn [fst]. unfold st_sorted. rewrite B1, B2, B3, B4, B5, B6. repeat split; auto.
 Qed.
 
@@ -401,7 +380,6 @@ Proof.
   - unfold submit. head_nums.
   - unfold challenge. head_nums.
   - pose proof (epoch_ends_frame avs_usd op_usd ended st) as G.
-    destruct (epoch_ends st avs_usd op_usd ended) as [st'|]; [|reflexivity].
     destruct G as (B1&B2&_). exact B2.
 Qed.
 
@@ -467,7 +445,7 @@ Proof.
   destruct (assoc (s_epochs st) (by_task_epoch (s_avs st) (i_task i))) as [cur|]; [|split; discriminate].
   rewrite gtb_neg.
   destruct (assoc (s_res st) (res_key (i_op i) (i_task i) (i_id i))); cbn [andb]; [split; discriminate|].
-  destruct (i_sig i); cbn [andb]; [|split; discriminate].
+  destruct (String.eqb (sig_bytes (i_sig i)) ""); cbn [negb andb]; [split; discriminate|].
   destruct (String.eqb (i_hash i) ""); cbn [negb orb andb]; [|split; discriminate].
   destruct (resp_is_nil (i_resp i)); cbn [negb orb andb]; [|split; discriminate].
   destruct (cur <=? t_start t + t_resp t); cbn [negb snd]; split; auto; discriminate.
@@ -574,38 +552,105 @@ Proof.
       destruct (mem x _) eqn:E; auto; apply mem_in in E; contradiction.
 Qed.
 
-(* what one group of the epoch hook writes *)
+Lemma powers_of_incl st ou avs l o p : In (o, p) (powers_of st ou avs l) -> In o (map r_op l) /\ 0 <= p.
+Proof.
+  induction l as [|r l IH]; simpl; [tauto|].
+  destruct (active_power st ou avs (r_op r)) as [q|]; [|intro H; apply IH in H; tauto].
+  destruct (q <? 0) eqn:E; [intro H; apply IH in H; tauto|].
+  intros [H|H]; [inversion H; subst; split; auto; apply Z.ltb_ge; exact E | apply IH in H; tauto].
+Qed.
+
+(* what one group of the epoch hook writes: either nothing (group skipped) or exactly this *)
 Lemma stat_group_spec st au ou ms :
-  match stat_group st au ou ms with
-  | None => True
-  | Some st' =>
-      exists r0 t t', In r0 ms /\ has_sig r0 = true /\
-        sget (s_tasks st) (join2 (r_task r0) (dec_str (r_id r0))) = Some t /\
-        sget (s_tasks st') (join2 (t_addr t) (dec_str (t_id t))) = Some t' /\
-        t_signed t' = map r_op (filter has_sig (sort_by r_op ms)) /\
-        t_nosigned t' = difference (t_optin t) (t_signed t') /\
-        t_optin t' = t_optin t /\
-        (exists pows, t_powers t' = Some pows /\ map fst pows = t_signed t') /\
-        assoc au (by_task_addr (s_avs st) (r_task r0)) = Some (t_total t')
-  end.
+  stat_group st au ou ms = st \/
+  exists r0 t t', In r0 ms /\ has_sig r0 = true /\
+    sget (s_tasks st) (join2 (r_task r0) (dec_str (r_id r0))) = Some t /\
+    sget (s_tasks (stat_group st au ou ms)) (join2 (t_addr t) (dec_str (t_id t))) = Some t' /\
+    t_signed t' = map r_op (filter has_sig (sort_by r_op ms)) /\
+    t_nosigned t' = difference (t_optin t) (t_signed t') /\
+    t_optin t' = t_optin t /\
+    (exists pows, t_powers t' = Some pows /\ forall o p, In (o, p) pows -> In o (t_signed t') /\ 0 <= p) /\
+    assoc au (by_task_addr (s_avs st) (r_task r0)) = Some (t_total t').
 Proof.
   unfold stat_group.
-  destruct (filter has_sig (sort_by r_op ms)) as [|r0 rest] eqn:Ef; [exact I|].
+  destruct (filter has_sig (sort_by r_op ms)) as [|r0 rest] eqn:Ef; [left; reflexivity|].
   assert (Hr0 : In r0 (filter has_sig (sort_by r_op ms))) by (rewrite Ef; left; auto).
   apply filter_In in Hr0. destruct Hr0 as [Hin Hsig]. apply in_sort_by in Hin.
-  destruct (powers_of st ou _ (r0 :: rest)) as [pows|] eqn:Ep; [|exact I].
-  destruct (sget (s_tasks st) _) as [t|] eqn:Et; [|exact I].
-  destruct (assoc au _) as [total|] eqn:Ea; [|exact I].
-  exists r0, t. eexists. split; [exact Hin|]. split; [exact Hsig|]. split; [exact Et|].
+  destruct (sget (s_tasks st) _) as [t|] eqn:Et; [|left; reflexivity].
+  destruct (assoc au _) as [total|] eqn:Ea; [|left; reflexivity].
+  right. exists r0, t. eexists. split; [exact Hin|]. split; [exact Hsig|]. split; [exact Et|].
   split; [cbn [s_tasks with_tasks]; apply sget_sset_same|].
   cbn [t_signed t_nosigned t_optin t_powers t_total].
   repeat split; auto.
-  exists pows. split; auto.
-  clear -Ep. revert pows Ep. generalize (r0 :: rest) as l.
-  induction l as [|r l IH]; simpl; intros pows Ep; [inversion Ep; reflexivity|].
-  destruct (active_power st ou _ (r_op r)); [|discriminate].
-  destruct (powers_of st ou _ l) as [ps|]; [|discriminate].
-  inversion Ep; subst. simpl. f_equal. apply IH. reflexivity.
+  eexists. split; [reflexivity|]. intros o p Hop. eapply powers_of_incl. exact Hop.
+Qed.
+
+(* with the repaired phase one every stored result carries a non-empty signature, in every reachable state *)
+Definition sig_ok (r : res_info) : bool :=
+  match r_sig r with Some x => negb (String.eqb x "") | None => false end.
+Definition sigs_ok (st : state) : Prop := forall k r, In (k, r) (s_res st) -> sig_ok r = true.
+
+Lemma sig_ok_has_sig r : sig_ok r = true -> has_sig r = true.
+Proof. unfold sig_ok, has_sig. destruct (r_sig r); auto. Qed.
+
+Ltac head_sigs H := repeat match goal with
+  | |- sigs_ok (fst (if ?c then _ else _)) => destruct c eqn:?
+  | |- sigs_ok (fst (match ?c with _ => _ end)) => destruct c eqn:?
+  end; try exact H.
+
+Lemma sig_stored_nonempty s : String.eqb (sig_bytes s) "" = false ->
+  match sig_stored s with Some x => negb (String.eqb x "") | None => false end = true.
+Proof. destruct s as [x|]; simpl; [|discriminate]. intro E. rewrite E. simpl. rewrite E. reflexivity. Qed.
+
+Lemma step_sigs_ok e st o : st_sorted st -> sigs_ok st -> sigs_ok (fst (step e st o)).
+Proof.
+  intros Hs H. pose proof Hs as (H1&H2&H3&H4&H5&H6&H7).
+  destruct o; cbn [step].
+  - unfold pre_register, keeper_register. head_sigs H.
+  - unfold pre_update, keeper_update. head_sigs H.
+  - unfold pre_deregister, keeper_deregister. head_sigs H.
+  - unfold opt_in. head_sigs H.
+  - unfold opt_out. head_sigs H.
+  - unfold create_task. head_sigs H.
+  - unfold reg_bls. head_sigs H.
+  - unfold submit. head_sigs H.
+    + (* phase one stores a non-empty signature *)
+      intros kk rr Hin. cbn [fst s_res with_res] in Hin. apply in_sset in Hin; auto.
+      destruct Hin as [[_ Hrr]|[_ Hin]]; [subst rr|eapply H; eauto].
+      unfold sig_ok. cbn [r_sig]. apply sig_stored_nonempty. assumption.
+    + (* phase two stores the signature it compared equal to the stored, non-empty one *)
+      intros kk rr Hin. cbn [fst s_res with_res] in Hin. apply in_sset in Hin; auto.
+      destruct Hin as [[_ Hrr]|[_ Hin]]; [subst rr|eapply H; eauto].
+      unfold sig_ok. cbn [r_sig]. apply sig_stored_nonempty.
+      match goal with
+      | Hg : sget (s_res st) _ = Some ?r0, Hn : negb (String.eqb (sig_bytes (r_sig ?r0)) _) = false |- _ =>
+          apply negb_false_iff in Hn; apply String.eqb_eq in Hn; rewrite <- Hn;
+          apply (sget_in _ _ _ H5) in Hg; apply H in Hg; unfold sig_ok in Hg;
+          destruct (r_sig r0) as [x|]; [|discriminate]; simpl; apply negb_true_iff in Hg; exact Hg
+      end.
+  - unfold challenge. head_sigs H.
+  - pose proof (epoch_ends_frame avs_usd op_usd ended st) as G. destruct G as (_&_&_&B4&_).
+    intros kk rr Hin. cbn [fst] in Hin. rewrite B4 in Hin. eapply H; eauto.
+Qed.
+
+Lemma run_sigs_ok e ops : forall st, st_sorted st -> sigs_ok st -> sigs_ok (run e st ops).
+Proof.
+  unfold run. induction ops as [|o r IH]; simpl; intros st Hs H; auto.
+  apply IH; [apply step_sorted; auto | apply step_sigs_ok; auto].
+Qed.
+
+(* hence the signer list of a processed group is EXACTLY the operators that have a stored (= accepted) result in it *)
+Lemma signers_all (ms : list res_info) : (forall r, In r ms -> sig_ok r = true) ->
+  filter has_sig (sort_by r_op ms) = sort_by r_op ms /\
+  forall o, In o (map r_op (filter has_sig (sort_by r_op ms))) <-> In o (map r_op ms).
+Proof.
+  intro H.
+  assert (E : filter has_sig (sort_by r_op ms) = sort_by r_op ms).
+  { assert (forall l : list res_info, (forall r, In r l -> has_sig r = true) -> filter has_sig l = l) as F.
+    { induction l as [|a l IH]; simpl; intro Hl; auto. rewrite (Hl a) by auto. f_equal. apply IH. intros; apply Hl; auto. }
+    apply F. intros r Hr. apply in_sort_by in Hr. apply sig_ok_has_sig. auto. }
+  split; [exact E|]. intro o. rewrite E. rewrite !in_map_iff.
+  split; intros [r [Ho Hr]]; exists r; split; auto; apply in_sort_by in Hr || apply in_sort_by; auto.
 Qed.
 
 (* if every signer was in the opt-in snapshot, the non-signer list is exactly snapshot minus signers *)
@@ -635,16 +680,18 @@ Definition w_prefix : list op :=
     OEpochEnd [("minute"%string, 1)] w_usd w_opusd;
     OCreateTask "0xT" "0xC" "owner" "t" "h" 0 0 50 0 w_usd ]%string.
 
-(* (a) phase one with an explicitly encoded empty signature is accepted; it is the only result of the task, and the
-   hook at the end of the statistical period panics *)
+(* (a) REGRESSION (former refutation witness): phase one with an explicitly encoded empty signature is now rejected,
+   nothing is stored, and the hook at the end of the statistical period runs through *)
 Definition w_ops_a : list op :=
   w_prefix ++
   [ OSubmit "op1" true (Some (mkInfo "op1" "" RNil (Some "") "0xT" 1 "1")) true false;
     OEpochEnd [("minute"%string, 2)] w_usd w_opusd;
     OEpochEnd [("minute"%string, 3)] w_usd w_opusd ]%string.
 
-Lemma witness_a : run_results w_env w_st0 w_ops_a = [ROk; ROk; ROk; ROk; ROk; ROk; ROk; ROk; RPanic].
-Proof. vm_compute. reflexivity. Qed.
+Lemma witness_a :
+  run_results w_env w_st0 w_ops_a = [ROk; ROk; ROk; ROk; ROk; ROk; RErr; ROk; ROk] /\
+  s_res (run w_env w_st0 w_ops_a) = [].
+Proof. vm_compute. split; reflexivity. Qed.
 
 (* (b) op2 never opted in, its phase-one result is accepted, and after the statistics it is listed both as signer and
    as non-signer *)
@@ -756,10 +803,6 @@ Lemma nonsigners_spec optin signed x :
   ((forall s, In s signed -> In s optin) -> (In x (difference optin signed) <-> In x optin /\ ~ In x signed)).
 Proof. split; [apply difference_spec | apply nosigned_when_signers_opted]. Qed.
 
-Lemma refuted_empty_signature : exists e st0 ops,
-  st_sorted st0 /\ reg_inv (s_avs st0) /\ run_results e st0 ops = [ROk; ROk; ROk; ROk; ROk; ROk; ROk; ROk; RPanic].
-Proof. exists w_env, w_st0, w_ops_a. split; [apply empty_sorted|]. split; [apply reg_inv_empty|]. exact witness_a. Qed.
-
 Lemma refuted_signer_not_opted_in : exists e st0 ops t o,
   st_sorted st0 /\ reg_inv (s_avs st0) /\ forallb (fun r => result_eqb r ROk) (run_results e st0 ops) = true /\
   sget (s_tasks (run e st0 ops)) "0xT/1" = Some t /\ In o (t_signed t) /\ In o (t_nosigned t) /\ ~ In o (t_optin t).
@@ -840,3 +883,27 @@ Proof.
   - unfold challenge. rej_frame.
   - rej_frame.
 Qed.
+
+(* an empty (absent or zero-length) signature is never accepted in phase one, in every state *)
+Lemma empty_signature_rejected e st from fv i pk bls : i_stage i = "1"%string -> sig_bytes (i_sig i) = ""%string ->
+  snd (step e st (OSubmit from fv (Some i) pk bls)) <> ROk /\ fst (step e st (OSubmit from fv (Some i) pk bls)) = st.
+Proof.
+  intros Hst Hsig.
+  assert (G : snd (step e st (OSubmit from fv (Some i) pk bls)) <> ROk).
+  { cbn [step]. unfold submit. rewrite Hst, Hsig. cbn [String.eqb Ascii.eqb Bool.eqb].
+    repeat match goal with
+    | |- snd (if ?c then _ else _) <> _ => destruct c
+    | |- snd (match ?c with _ => _ end) <> _ => destruct c
+    end; cbn [snd]; discriminate. }
+  split; [exact G | apply step_rejected_frame; exact G].
+Qed.
+
+(* the epoch hook has no panic path: an epoch end is always processed *)
+Lemma epoch_end_never_panics e st ended au ou : snd (step e st (OEpochEnd ended au ou)) = ROk.
+Proof. reflexivity. Qed.
+
+Lemma regression_empty_signature :
+  run_results w_env w_st0 w_ops_a = [ROk; ROk; ROk; ROk; ROk; ROk; RErr; ROk; ROk] /\
+  s_res (run w_env w_st0 w_ops_a) = [].
+Proof. exact witness_a. Qed.
+
